@@ -769,6 +769,9 @@ func (fr *frame) load(t types.Type, addr Value, pos token.Pos) Value {
 			fr.goPanic("invalid memory address or nil pointer dereference", pos)
 		}
 		v := *p
+		if t == nil {
+			return copyVal(v)
+		}
 		// reinterpretation through unsafe.Pointer casts: []byte <-> string
 		if b, ok := t.Underlying().(*types.Basic); ok && b.Info()&types.IsString != 0 {
 			if s, ok := v.(Slice); ok {
